@@ -1241,6 +1241,86 @@ func contoursFamily(budget time.Duration) mc.Family {
 // afterFailureFamily: the library's charstring decoder gives the same result for
 // a charstring whatever it decoded (or failed to decode) before: every bad
 // charstring (operands pending when it fails) followed by every good one.
+// editFamily: the numbers written are those of the glyph as it is when Write is
+// called.  A glyph is written, then edited in place without changing anything
+// a summary of it could notice (number of commands and stems, advance width,
+// end points of the segments: only control points and stem values move), and
+// written again.
+func editFamily(budget time.Duration) mc.Family {
+	edits := []string{"control points of the curves", "second edge of the first stem", "both", "first control point by 1/3"}
+	return mc.Family{
+		Name: "rewrite-after-edit", Items: len(edits) * len(formats), Budget: budget,
+		Rule: fmt.Sprintf("a glyph with two curves, two lines and stems is written, edited in place (%v; counts, width and segment end points unchanged), and written again in each of the %d formats (the first write in another format, too): Write -> Read and -> independent decoder give the edited numbers; non-trivial = all", edits, len(formats)),
+		Body: func(c *mc.Ctx, item int) mc.Verdict {
+			ei, fi := item/len(formats), item%len(formats)
+			g := &type1.Glyph{WidthX: 600}
+			g.MoveTo(100, 100)
+			g.CurveTo(100, 300, 250, 400, 400, 400)
+			g.LineTo(400, 100)
+			g.CurveTo(300, 50, 200, 50, 100, 100)
+			g.ClosePath()
+			g.HStem = []funit.Int16{0, 20, 380, 400}
+			g.VStem = []funit.Int16{100, 130}
+			f := fontWith(g)
+			for _, first := range []int{fi, (fi + 1) % len(formats)} {
+				var buf bytes.Buffer
+				if err := f.Write(&buf, &type1.WriterOptions{Format: formats[first]}); err != nil {
+					return mc.Fail("C20:public:write-error", "first write: "+err.Error())
+				}
+			}
+			c.Step()
+			gg := f.Glyphs["sweep"]
+			if ei == 0 || ei == 2 {
+				for i := range gg.Cmds {
+					if gg.Cmds[i].Op == type1.OpCurveTo {
+						gg.Cmds[i].Args[1] += 50
+						gg.Cmds[i].Args[2] -= 20
+					}
+				}
+			}
+			if ei == 1 || ei == 2 {
+				gg.HStem[1] = 25
+				gg.VStem[1] = 140
+			}
+			if ei == 3 {
+				gg.Cmds[1].Args[0] += 1.0 / 3
+			}
+			what := "glyph written, edited in place (" + edits[ei] + "), written again"
+			if vd := publicRoundTrip(c, f, fi, what); vd != nil {
+				vd.Key = strings.Replace(vd.Key, "C20:public:", "C20:rewrite-after-edit:", 1)
+				return *vd
+			}
+			return mc.Pass("edited-numbers-written/"+formatNames[fi], true)
+		},
+	}
+}
+
+// stemsFamily: every hint value is written, however many there are.
+func stemsFamily(budget time.Duration) mc.Family {
+	counts := []int{1, 12, 47, 48, 49, 60, 96, 97, 100, 128, 200, 500}
+	return mc.Family{
+		Name: "many-stems", Items: len(counts) * len(formats), Budget: budget,
+		Rule: fmt.Sprintf("a glyph with n in %v horizontal and n vertical stem pairs (distinct edges) x format: Write -> Read and -> independent decoder return all of them; non-trivial = all", counts),
+		Body: func(c *mc.Ctx, item int) mc.Verdict {
+			n, fi := counts[item/len(formats)], item%len(formats)
+			g := &type1.Glyph{WidthX: 600}
+			g.MoveTo(0, 0)
+			g.LineTo(100, 0)
+			g.LineTo(100, 100)
+			g.ClosePath()
+			for i := 0; i < n; i++ {
+				g.HStem = append(g.HStem, funit.Int16(-12000+40*i), funit.Int16(-12000+40*i+15))
+				g.VStem = append(g.VStem, funit.Int16(9000-30*i), funit.Int16(9000-30*i+7))
+			}
+			what := fmt.Sprintf("glyph with %d horizontal and %d vertical stems", n, n)
+			if vd := publicRoundTrip(c, fontWith(g), fi, what); vd != nil {
+				return *vd
+			}
+			return mc.Pass("all-stems/"+formatNames[fi], true)
+		},
+	}
+}
+
 func afterFailureFamily(budget time.Duration) mc.Family {
 	num := func(v int32) []byte {
 		return []byte{255, byte(v >> 24), byte(v >> 16), byte(v >> 8), byte(v)}
@@ -1477,6 +1557,8 @@ func main() {
 			fams = append(fams, creepFamily(budget))
 			fams = append(fams, contoursFamily(budget))
 			fams = append(fams, afterFailureFamily(budget))
+			fams = append(fams, editFamily(budget))
+			fams = append(fams, stemsFamily(budget))
 			fams = append(fams, mc.Family{
 				Name: "drift-far-from-origin", Items: len(farStarts) * len(farCurves), Budget: budget, Body: farBody,
 				Rule: fmt.Sprintf("item = start point %v x curve deltas %v: a moveto to the start point followed by 10,000 such curves (all three curve operators), encoded by the library and decoded by the library's decoder (export shim): every coordinate within 1/214 of the requested one; non-trivial = all", farStarts, farCurves),
